@@ -22,8 +22,8 @@ def setup(tmp, seed):
     rng = random.Random(seed)
     base = make_genome(rng)[:120]
     mk = lambda b=None: [(make_genome(rng, b) if b else make_genome(rng))[:rng.randint(70, 120)]]
-    qs = [mk(base), mk(base) + mk(), mk()]
-    rs = [[base], mk(base), mk(), mk(base), [base]]             # two identical references
+    qs = [mk(base), mk(base) + mk(), ['GGGGCCCCGGGG']]              # the last query has an empty signature under every parameter set
+    rs = [[base], mk(base), ['CCCCGGGG', 'GGGG'], mk(base), [base]]  # two identical references, one with an empty signature
     qnames = ['query0.fasta', 'sub dir/query,1.fa.gz', 'q.2.fna']
     rnames = ['ref0.fa', 'r/ref1.fasta.gz', 'ref2', 'ref3.txt', 'other/ref0.fa.fasta']
     env = dict(q=qs, r=rs, qnames=qnames, rnames=rnames)
@@ -158,6 +158,4 @@ def run(ctx):
                         'all other cells must be the correctly rounded exact distance']
 
 
-def replay(ctx, scen):
-    print('C16 scenarios are re-run by the check itself; run ./check C16 --tier quick')
-    return True
+replay = core.RERUN
